@@ -10,17 +10,17 @@ CHECKS = {
    technique="sibling-implementation agreement with arithmetic normalisation, strict-guard dominance on go/ssa",
    ref="DESIGN.md section 5 C19 / section 6"),
  "C15": dict(
-   text="Memory-safety discipline of the decoders, decided for every function in the decoder call closure: each index, slice, fixed-size decode destination and fixed-width read is discharged by a guard from a table of sound idioms holding on every feasible path, or reported; no explicit panic is reachable (six named exceptions, each with its precondition); pointers decoded from the wire are dereferenced only after a nil test; the recursive decoders advance their cursor before recursing.",
+   text="Memory-safety discipline of the decoders, decided for every function in the decoder call closure: each index, slice, fixed-size decode destination and fixed-width read is discharged by a guard from a table of sound idioms holding on every feasible path, or reported; no explicit panic is reachable (six named exceptions, each with its precondition); pointers decoded from the wire are dereferenced only after a nil test; the recursive decoders advance their cursor before recursing. Further: the recursive decoders do constant work per level on recursively decoded subtrees (COST-linear).",
    note="Does not decide the behaviour of the CBOR and msgp libraries on hostile input (third-party). An idiom outside the guard table is reported as a violation (possible false alarm, by design). Termination is decided only as 'one element consumed per recursive call'.",
    technique="guard-table discharge of bounds obligations over go/ssa with feasible-path facts, call-closure panic reachability, nil-test dominance",
    ref="DESIGN.md section 5 C15"),
  "C09": dict(
-   text="Structural necessary conditions for weight/ownership/root following content, decided on every path of insert, delete, getBlockProof and markToCollect: a collapsed position is resolved before it is interpreted as another kind or as empty; the weight change of the recursive descent is folded into the branch weight and returned; every store to a hashed field is accompanied by dirty=true; the weight-ordered descent enters a child only under block <= child weight and subtracts skipped weights.",
+   text="Structural necessary conditions for weight/ownership/root following content, decided on every path of insert, delete, getBlockProof and markToCollect: a collapsed position is resolved before it is interpreted as another kind or as empty; the weight change of the recursive descent is folded into the branch weight and returned; every store to a hashed field is accompanied by dirty=true; the weight-ordered descent enters a child only under block <= child weight and subtracts skipped weights. Further: the single-child scan of delete keeps its sentinels outside the slot range and its decision accepts exactly the slot numbers (DOM-sentinel).",
    note="Does not decide the numeric equalities themselves (total weight, ownership interval, root equality with an independent computation).",
    technique="type-test exhaustiveness with an assumed-kind CFG walk, data-dependence and dominance checks on go/ssa",
    ref="DESIGN.md section 5 C09"),
  "C10": dict(
-   text="What the verifier recomputes and what it trusts, decided structurally: every success arm stores the verified child, sets dirty and recomputes the hash before returning, and VerifyBlockProof returns that recomputed hash; range checks guard every success; and 'navigated-by is a subset of committed-to' is checked per node kind. Two known findings: the branch hash binds only the sum of child weights while the verifier navigates by each claimed weight (forgeable, witness recorded); node kinds are not domain-separated in the hash pre-image.",
+   text="What the verifier recomputes and what it trusts, decided structurally: every success arm stores the verified child, sets dirty and recomputes the hash before returning, and VerifyBlockProof returns that recomputed hash; range checks guard every success; and 'navigated-by is a subset of committed-to' is checked per node kind. Two known findings: the branch hash binds only the sum of child weights while the verifier navigates by each claimed weight (forgeable, witness recorded); node kinds are not domain-separated in the hash pre-image. Further: serialisation (proof construction) reads cached hashes only after the node tested clean or was re-hashed (ORDER-hashfresh).",
    note="Does not decide absence of other forgeries (a statement over all byte strings).",
    technique="ordering/dominance checks, range-guard facts, pre-image vs decision-input agreement on go/ssa",
    ref="DESIGN.md section 5 C10"),
@@ -30,12 +30,12 @@ CHECKS = {
    technique="must-pass-through, call-graph effect confinement, provenance dataflow of deleted keys, field-set agreement on go/ssa",
    ref="DESIGN.md section 5 C11"),
  "C12": dict(
-   text="Thin structural check of the path export: every path through GetPath marks the requested keys (parallel or sequential loop) before assembling the export, for every root kind; writer and reader of the embedded shared-prefix child agree on field order, offsets and byte order; export and import walk in the same pre-order; markToCollect resolves collapsed positions.",
+   text="Thin structural check of the path export: every path through GetPath marks the requested keys (parallel or sequential loop) before assembling the export, for every root kind; writer and reader of the embedded shared-prefix child agree on field order, offsets and byte order; export and import walk in the same pre-order; markToCollect resolves collapsed positions. Further: every node on a requested key's path is marked for export also when the key is absent below it (DOM-marked); a storage-less trie keeps unresolved references instead of failing (DOM-nodb); exported nodes carry fresh hashes (ORDER-hashfresh).",
    note="Does not decide root/weight equality after mirrored updates. Import-side hash checks are deliberately not armed (not necessary for honest exports).",
    technique="path-avoidance feasibility check, writer/reader layout agreement on go/ssa",
    ref="DESIGN.md section 5 C12"),
  "C13": dict(
-   text="Agreement between the two rollback entry points and the checkpoint: both reset created/tempDeleted/deleted and delete exactly `created` through one batch; SaveRoot records (hash, weight) of the root and resets `created`, Rollback restores from exactly those; commit must record a node as created under the same hash-changed condition as it records the old hash deleted. Known finding: created is recorded unconditionally (witness recorded).",
+   text="Agreement between the two rollback entry points and the checkpoint: both reset created/tempDeleted/deleted and delete exactly `created` through one batch; SaveRoot records (hash, weight) of the root and resets `created`, Rollback restores from exactly those; commit must record a node as created under the same hash-changed condition as it records the old hash deleted. Known finding: created is recorded unconditionally (witness recorded). Further: what Rollback installs is decided by and built from the checkpoint only (DEP-checkpoint).",
    note="Does not decide resolvability of every checkpoint node after rollback for every history.",
    technique="sibling agreement (field-reset sets, guard conditions) on go/ssa",
    ref="DESIGN.md section 5 C13"),
@@ -45,32 +45,32 @@ CHECKS = {
    technique="error-path return classification with feasible-path facts, loop/counter structure check, sentinel-set agreement, provenance dataflow (FRESH) on go/ssa",
    ref="DESIGN.md section 5 C17"),
  "C14": dict(
-   text="Addressing and codec agreement decided structurally: at every store write site the key is the hash of the very node written (insertNode stamp-hash-put, UpdateChanges keys[i]=hash(nodes[i]), persistent store Encode() under the given key, memory/layered stores pass key and node unchanged); the type-code tables of writer and reader are inverse; origin tracker and node header are written and read in the same (byte order, field) sequence; per node type separators written = separators scanned, fields written and read in the same order, child keys hex on both sides, and separator-unsafe fields only after the last separator.",
+   text="Addressing and codec agreement decided structurally: at every store write site the key is the hash of the very node written (insertNode stamp-hash-put, UpdateChanges keys[i]=hash(nodes[i]), persistent store Encode() under the given key, memory/layered stores pass key and node unchanged); the type-code tables of writer and reader are inverse; origin tracker and node header are written and read in the same (byte order, field) sequence; per node type separators written = separators scanned, fields written and read in the same order, child keys hex on both sides, and separator-unsafe fields only after the last separator. Further: no trie operation edits a store-owned node object in place (FRESH-node), which would leave the memory store with an entry not addressed by its own hash.",
    note="Does not decide byte-exact round trip for every value. AGREE-fields reads the codec functions' syntax (typed AST) and accepts only constant-bound loops; other shapes are reported as undecided.",
    technique="writer/reader skeleton agreement over typed AST and go/ssa, key/index agreement at store write sites",
    ref="DESIGN.md section 5 C14"),
  "C01": dict(
-   text="Totality and pre-condition clauses of the map behaviour, decided on every path: each node-kind dispatch of lookup/insert/delete/iterate has an arm for every storable kind, no such arm is a panic and no panicking default is reachable with a nil node; Insert locks or mutates only after rejecting over-size values and routing nil/empty values to Delete; deleting at a value-less branch, under a mismatching leaf or below a nil child reports 'not present'; no extension node is ever built with an empty path (which would hide its subtree from lookups).",
+   text="Totality and pre-condition clauses of the map behaviour, decided on every path: each node-kind dispatch of lookup/insert/delete/iterate has an arm for every storable kind, no such arm is a panic and no panicking default is reachable with a nil node; Insert locks or mutates only after rejecting over-size values and routing nil/empty values to Delete; deleting at a value-less branch, under a mismatching leaf or below a nil child reports 'not present'; no extension node is ever built with an empty path (which would hide its subtree from lookups). Further: only a value-less branch is replaced by its only child (DOM-lift); a node the rebuilt trie still references is never handed to deleteNode (WHO-livedelete).",
    note="Does not decide that lookups return the last stored value for every history (path arithmetic and slicing are value-level), nor hex validation of paths (outside the quantifier). The 'non-nil node when no error' fact about getNode is assumed (named results, not constants).",
    technique="type-dispatch exhaustiveness + nil-result summaries, path-sensitive guard facts, non-emptiness discharge table on go/ssa",
    ref="DESIGN.md section 5 C01"),
  "C02": dict(
-   text="What the root hash is computed from and when, decided structurally: the three node kinds hash little-endian origin || exactly the fields they persist (same encode function object for hashing and storing); insertNode stamps the origin before hashing and stores under that hash; branch arms that clear a slot read the child count and value presence (necessary for canonical collapse); no empty-path extension is constructed. The defect this rule found (removing a branch's value never inspected the child count) is repaired in /repo (fix: a175b31).",
+   text="What the root hash is computed from and when, decided structurally: the three node kinds hash little-endian origin || exactly the fields they persist (same encode function object for hashing and storing); insertNode stamps the origin before hashing and stores under that hash; branch arms that clear a slot read the child count and value presence (necessary for canonical collapse); no empty-path extension is constructed. The defect this rule found (removing a branch's value never inspected the child count) is repaired in /repo (fix: a175b31). Further: every key installed as an extension's child is provably the key of a branch (DEP-extchild).",
    note="Does not decide equality with an independent implementation for every content, full history independence, or collision resistance. DEP-canon is a necessary condition only (reads of GetNumChildren/HasValue), not proof of canonical restructuring.",
    technique="sibling skeleton agreement, ordering/dominance checks and must-depend-on reads on go/ssa",
    ref="DESIGN.md section 5 C02"),
  "C05": dict(
-   text="Structural necessary conditions for dead-node records and pruning, decided on every path: AddChange cancels the dead record of re-created content on every path and dead records are keyed by the recorded node's hash; every node hash starts with the node's origin; the pruner forwards a record only under the strict test round < version, deletes only keys/rounds that came from forwarded records, drops records only after all node deletes, and writer/reader/deleter agree on record key codec (big-endian) and column families.",
+   text="Structural necessary conditions for dead-node records and pruning, decided on every path: AddChange cancels the dead record of re-created content on every path and dead records are keyed by the recorded node's hash; every node hash starts with the node's origin; the pruner forwards a record only under the strict test round < version, deletes only keys/rounds that came from forwarded records, drops records only after all node deletes, and writer/reader/deleter agree on record key codec (big-endian) and column families. Further: WHO-livedelete and DOM-samekey (see C04): no live hash enters the dead set through a kept child or an unchanged re-write.",
    note="Does not decide reachability of recorded nodes from later roots (a graph property of runtime content). The RocksDB binding is analysed as a named API. Channel hand-over between the iterator goroutine and the deleter is assumed faithful.",
    technique="must-pass-through and strict-guard checks, provenance dataflow of deleted keys, writer/reader codec agreement on go/ssa",
    ref="DESIGN.md section 5 C05"),
  "C04": dict(
-   text="Structural necessary conditions of a complete, crash-safe save, decided on every path: the trie writes its store and feeds its change collector only in insertNode/deleteNode, every (re)created node is collected unless its hash is unchanged, each node is stored under its own hash; a save is exactly one MultiPutNode batch (keys[i] = hash of nodes[i] = copy of the change's New node) before any delete, deletes only under includeDeletes, arguments passed through unchanged; the persistent store reaches RocksDB only through one WriteBatch written once after the loop; plus FRESH-node (no in-place write to shared node bytes).",
+   text="Structural necessary conditions of a complete, crash-safe save, decided on every path: the trie writes its store and feeds its change collector only in insertNode/deleteNode, every (re)created node is collected unless its hash is unchanged, each node is stored under its own hash; a save is exactly one MultiPutNode batch (keys[i] = hash of nodes[i] = copy of the change's New node) before any delete, deletes only under includeDeletes, arguments passed through unchanged; the persistent store reaches RocksDB only through one WriteBatch written once after the loop; plus FRESH-node (no in-place write to shared node bytes). Further: a still-referenced node is never deleted (WHO-livedelete); an unchanged re-write is not reported to the change collector (DOM-samekey).",
    note="Does not decide completeness of the change set for every history (rests on C01's map semantics) nor RocksDB's own atomicity (batches are the atomic unit by the property's quantifier). The RocksDB binding is analysed as a named API (it cannot be compiled here).",
    technique="who-may-call/effect confinement over the repo call graph, path-sensitive must-pass-through, index/key agreement on go/ssa",
    ref="DESIGN.md section 5 C04"),
  "C03": dict(
-   text="Layering, guard and copy discipline that child-trie isolation rests on, decided on every path: the layered store never writes its parent level (deletes only under PropagateDeletes); a merge replays changes only after the start-root comparison succeeded and only from a direct child; the memory store keeps CloneNode() copies under the given key; and no trie operation writes in place to node memory that derives from the store, the node cache, a pending change or a caller (interprocedural source-label dataflow).",
+   text="Layering, guard and copy discipline that child-trie isolation rests on, decided on every path: the layered store never writes its parent level (deletes only under PropagateDeletes); a merge replays changes only after the start-root comparison succeeded and only from a direct child; the memory store keeps CloneNode() copies under the given key; and no trie operation writes in place to node memory that derives from the store, the node cache, a pending change or a caller (interprocedural source-label dataflow). Further: a merge never reports success on a path where the parent's root is neither equal to nor set to the child's (DOM-adopt).",
    note="Does not decide equality of parent and child views after arbitrary histories. Constructors are modelled as returning fresh objects (slices handed to them are assumed not written later through the new node); aliasing is label-based, not a points-to analysis. One named exception: re-stamping the origin of replayed child nodes in mergeChanges (idempotent at equal versions).",
    technique="call-site effect confinement, path-sensitive guard checks, interprocedural provenance dataflow (FRESH) on go/ssa",
    ref="DESIGN.md section 5 C03"),
@@ -90,17 +90,17 @@ CHECKS = {
    technique="guard-table discharge of arithmetic instructions over go/ssa with feasible-path facts",
    ref="DESIGN.md section 5 C18"),
  "C08": dict(
-   text="Race freedom by guarded-by discipline and commit/publication order, decided statically for every call path from the exported cache API: plain maps and rewritable fields only under their owner's mutex in the required mode (interprocedural must-lockset), sync/atomic counters never accessed plainly, constructor-only fields never rewritten; every commit-path write into the shared LRU maps under the state cache's lock; the block's ancestor link published after all of the block's keys.",
+   text="Race freedom by guarded-by discipline and commit/publication order, decided statically for every call path from the exported cache API: plain maps and rewritable fields only under their owner's mutex in the required mode (interprocedural must-lockset), sync/atomic counters never accessed plainly, constructor-only fields never rewritten; every commit-path write into the shared LRU maps under the state cache's lock; the block's ancestor link published after all of the block's keys. Further: the data handed out belongs to the entry whose tombstone flag was tested, also after the own-entry re-check (DOM-tombstone).",
    note="Does not decide that every interleaving of the deliberately lock-free StateCache.Get with a commit returns the block-tree value (needs exploring interleavings). Locks are identified per (owner type, field), not per instance. Trusted: go/ssa, CHA call graph; the LRU library is internally synchronised.",
    technique="interprocedural must-lockset analysis over go/ssa + repo call graph, guard table per field, CFG reachability for publication order",
    ref="DESIGN.md section 5 C08"),
  "C06": dict(
-   text="Structural necessary conditions of correct cache answers, decided on every feasible CFG path: an existing per-key versions map is never replaced when (re)installing it; a handed-out entry is reached only with its tombstone tested false; each layer consults its own map before delegating (block layer continues at the previous block); the ancestor walk only follows the queried hash and stored links, memoises the found entry under the queried hash; entries are stored under the key/hash given and remove arms store deleted=true.",
+   text="Structural necessary conditions of correct cache answers, decided on every feasible CFG path: an existing per-key versions map is never replaced when (re)installing it; a handed-out entry is reached only with its tombstone tested false; each layer consults its own map before delegating (block layer continues at the previous block); the ancestor walk only follows the queried hash and stored links, memoises the found entry under the queried hash; entries are stored under the key/hash given and remove arms store deleted=true. Further: writes and removals are recorded in the layer's pending map on every path (DOM-writekept); the tombstone test and the data read concern the same entry (rewrite-sensitive DOM-tombstone). One known finding (CAP-absence): the per-key versions map is a recency-evicting LRU while the walk reads absence as 'not written' - stale hit after eviction, witness recorded.",
    note="Does not decide answers after LRU eviction nor equality with the block-tree oracle for every history (value-level). Trusted: go/ssa model; structural equality of tested atoms; third-party LRU as a named API.",
    technique="path-sensitive guard (must-pass-through) checks on go/ssa CFG, provenance dataflow for hash/key sources",
    ref="DESIGN.md section 5 C06"),
  "C07": dict(
-   text="Structural necessary conditions of cache isolation decided on every CFG path: every Value crossing a cache-map boundary (caller->map, map->caller, txn->block->state) has a Clone() result as its only provenance; setValue/commit are reachable only from the commit entry points; every Clone() implementation is a deep (codec) copy. Breaking any of these shares a mutable value or leaks an uncommitted write.",
+   text="Structural necessary conditions of cache isolation decided on every CFG path: every Value crossing a cache-map boundary (caller->map, map->caller, txn->block->state) has a Clone() result as its only provenance; setValue/commit are reachable only from the commit entry points; every Clone() implementation is a deep (codec) copy. Breaking any of these shares a mutable value or leaks an uncommitted write. Further: DOM-writekept (see C06): what a transaction commits, including tombstones, always reaches the block's pending map.",
    note="Decides the copy-on-boundary, layering and deep-copy clauses only; 'after commit the values are what lookups return' is value-level and not decided. Trusted: go/types+go/ssa model of the source; CHA resolution of interface calls; third-party LRU treated as a named API.",
    technique="forward provenance dataflow on go/ssa (field-sensitive cells), repo call-graph who-may-call, Clone() implementation audit",
    ref="DESIGN.md section 5 C07"),
